@@ -104,7 +104,8 @@ Definition check_case (x : lcase) : list N :=
    7 published without calling the listener or the reverse, more than one message, or the listener saw other new values
    (8, 9 unused: a delete / an add published for a resource reported as not found is NOT a violation of C20:
     the served value still equals the fold; the harness only tags such cases)
-   10 index entries differ from the keys of the stored value (handler without Default, no empty keys in the case) *)
+   10 index entries differ from the keys of the stored value (handler without Default, no empty keys in the case,
+      Type interface-valued or all events of the handler's Type) *)
 Definition view_of_g (g : gres) : option view :=
   match g with GOk r => Some (Some r) | GNotFound => Some None | GErr => None end.
 Definition jchanged_j (m0 : jmodel) (k : key) (a : act jval) : bool :=
@@ -123,10 +124,12 @@ Definition old_ok (prev : view) (newv oldv' : revmap) : bool :=
                        match rget (fst ka) oldv' with Some _ => true | None => false end) newv
   | _ => false
   end.
-Definition call_ok (prev : view) (pstored : option res) (l : lcall) : bool :=
+(* the delete data is compared when default, entry and events are of the handler's Type (into a
+   float64 Type encoding/json turns a stored null into 0) *)
+Definition call_ok (typed : bool) (prev : view) (pstored : option res) (l : lcall) : bool :=
   match l with
   | LChange n o => old_ok prev n o
-  | LDelete d => veqb d pstored
+  | LDelete d => negb typed || veqb d pstored
   | _ => true
   end.
 Definition pub_call_ok (p : list pubmsg) (l : list lcall) (e : event) : bool :=
@@ -164,7 +167,7 @@ Fixpoint viol_steps (c : cfg) (typed : bool) (cl prev : option view) (pstored : 
            | None, _ => []
            end
          end) ++
-        (if forallb (call_ok pv pstored) (g_call o) then [] else [4]) ++
+        (if forallb (call_ok typed pv pstored) (g_call o) then [] else [4]) ++
         (if unappliable pv (so_ev o) &&
             negb (is_nil (g_pub o) && is_nil (g_call o) && veqb pstored (g_stored o)) then [5] else [])
       | _, _ => []
@@ -180,10 +183,10 @@ Definition idx_checkable (c : cfg) (ks : list keyfn) (l : list sobs) : bool :=
   match c_def c with Some _ => false | None => true end &&
   forallb (fun o => no_empty_key (idx_spec ks (g_stored o)) && no_empty_key (g_idx o) &&
                     match so_ev o with ECreate d => no_empty_key (idx_entries 0 ks d) | _ => true end) l.
-Definition viol_idx (c : cfg) (l : list sobs) : list N :=
+Definition viol_idx (c : cfg) (typed : bool) (l : list sobs) : list N :=
   match idxs c with
   | Some ks =>
-    if idx_checkable c ks l && negb (forallb (fun o => ents_eqb (g_idx o) (idx_spec ks (g_stored o))) l)
+    if (typed || match c_ty c with TyAny => true | TyNum => false end) && idx_checkable c ks l && negb (forallb (fun o => ents_eqb (g_idx o) (idx_spec ks (g_stored o))) l)
     then [10] else []
   | None => []
   end.
@@ -197,7 +200,7 @@ Definition viol_case (x : lcase) : list N :=
   let typed := well_typed c (St (lc_init x) []) (map so_ev (lc_steps x)) in
   (if typed && negb (geqb (lc_value0 x) (lc_get0 x)) then [6] else []) ++
   viol_steps c typed (view_of_g (lc_get0 x)) (view_of_g (lc_get0 x)) (lc_init x) (lc_steps x) ++
-  viol_idx c (lc_steps x) ++
+  viol_idx c typed (lc_steps x) ++
   let '(g, st, ix) := last_obs (lc_steps x) (lc_get0 x) (lc_init x) [] in
   (if geqb g (lc_reget x) && veqb st (lc_restored x) && ents_eqb ix (lc_reidx x) then [] else [3]).
 
